@@ -287,7 +287,7 @@ impl Set {
 
     pub(crate) fn set_active(&mut self, id: Option<Id>) {
         tracing::dispatcher::get_default(|subscriber| {
-            if let Some(span_id) = self.active().span.id() {
+            if let Some(span_id) = self.active.and_then(|active| self.threads[active].span.id()) {
                 subscriber.exit(&span_id)
             }
 
